@@ -58,7 +58,8 @@ def main():
         rc_all = []
         for pid in a.ids.split(','):
             r = subprocess.run([os.path.join(HERE, 'check'), pid, '--tier', a.tier],
-                               env=dict(os.environ, VERIF_REPO=dst, VERIF_SEED=a.seed),
+                               env=dict(os.environ, VERIF_REPO=dst, VERIF_SEED=a.seed, VERIF_EVIDENCE_DIR=os.path.join(tmp, 'evidence'),
+                                        VERIF_REPLAY_DIR=os.path.join(tmp, 'replays')),
                                stdout=subprocess.PIPE, stderr=subprocess.STDOUT, cwd=HERE)
             out = r.stdout.decode(errors='replace')
             lines = [l for l in out.splitlines() if l.startswith(('FAIL', 'VIOLATION', 'HARNESS', 'REGRESSION', pid))]
@@ -68,10 +69,9 @@ def main():
             rc_all.append(r.returncode)
         return 0 if all(rc == 1 for rc in rc_all) else 1
     finally:
-        if a.keep and os.path.isdir(os.path.join(HERE, 'replays')):
-            shutil.copytree(os.path.join(HERE, 'replays'), a.keep, dirs_exist_ok=True)
+        if a.keep and os.path.isdir(os.path.join(tmp, 'replays')):
+            shutil.copytree(os.path.join(tmp, 'replays'), a.keep, dirs_exist_ok=True)
         shutil.rmtree(tmp, ignore_errors=True)
-        shutil.rmtree(os.path.join(HERE, 'replays'), ignore_errors=True)
 
 
 if __name__ == '__main__':
